@@ -166,7 +166,7 @@ def finish(mod, prop, tier, seed, recs, t0, partial=False):
     bdn = sum(int(r.get('distinct_nontrivial', 0)) for r in Bn)
     cov = dict(
         obligations=n_ob, discharged=len(proved), refuted=len([r for r in P if r['verdict'] == 'refuted']),
-        undecided=len(undec), engine_faults=len(faults),
+        undecided=len(undec), engine_faults=len(faults), engine_suspects=len([r for r in undec if r.get('engine_suspect')]),
         checker_cmd=f'./check {prop} --tier {tier}',
         trusted_base=list(getattr(mod, 'TRUSTED_BASE', [])),
         functions_under_contract=fns,
